@@ -88,6 +88,13 @@ let () = iter_lines (fun line ->
   | "P" :: _k :: cs :: al :: ops ->
       let s = ref (sreg_init (reg_of_lists (p_cmds cs) (p_als al))) in
       let out = List.concat_map (fun f ->
+        match toks f with
+        | "h" :: n :: al ->
+            (* the HOST registers a command between two script steps: Commands::set on the registry component; the SDK's
+               own sub-states (alias marks, function names) are untouched *)
+            let (r', x) = step !s.sr_reg (OSet (str_of_field n, List.map str_of_field al)) in
+            s := { !s with sr_reg = r' }; [res_s x; dump_s r']
+        | _ ->
         let (s', x) = sstep !s (p_sop f) in s := s'; [sres_s x; dump_s s'.sr_reg]) ops in
       print_endline (String.concat "\t" out)
   | _ -> print_endline "BADLINE")
